@@ -71,3 +71,31 @@ Definition selector_sweep_row (k : path_kind) (l : loc_kind) (sample : string) (
    site kind the table gives *)
 Definition selector_site_row (k : path_kind) (l : loc_kind) (observed : Lex.Lexer.lstate) : Z :=
   if Lex.Lexer.lstate_eqb (site_state (rewrite_path_site k l)) observed then 1 else 0.
+
+(* ---- upper bounds (parsers): the real validator may accept LESS than the model, never more.
+   upper_row: 0 if every perturbed string the real validator accepts matches the upper bound, else 1 + the first
+   byte value (0..255) for which it does not *)
+Fixpoint upper_go (name : string) (mode : Z) (pos : nat) (sample : string) (cs : list ascii) (bits : string) : Z :=
+  match cs, bits with
+  | c :: cs', String b bits' =>
+      if Ascii.eqb b "1"%char then
+        match validator_matches name (perturb mode pos c sample) with
+        | Some true => upper_go name mode pos sample cs' bits'
+        | _ => 1 + Z.of_nat (nat_of_ascii c)
+        end
+      else upper_go name mode pos sample cs' bits'
+  | _, _ => 0
+  end.
+
+Definition upper_row (name sample : string) (pos mode : Z) (bits : string) : Z :=
+  upper_go name mode (Z.to_nat pos) sample all_bytes bits.
+
+(* the model of generatePath against the real function: 1 if equal *)
+Fixpoint str_eqb2 (a b : string) : bool :=
+  match a, b with
+  | EmptyString, EmptyString => true
+  | String x a', String y b' => Ascii.eqb x y && str_eqb2 a' b'
+  | _, _ => false
+  end.
+
+Definition gen_path_row (input output : string) : Z := if str_eqb2 (gen_path input) output then 1 else 0.
